@@ -274,6 +274,9 @@ contract(
                        "old(self.doneEffort) == 0 and self.doneEffort > 0 and some(attr(self.property, 'forward', self.scenarioIdx)) and "
                        "TStart(self.property, self.scenarioIdx) is not None and "
                        "secs(some(TStart(self.property, self.scenarioIdx))) == secs(PT(self.project, some(self.currentSlotIdx))) + self.slotStartOffset)"),
+        ("first-credit-sets-start", "implies(some(attr(self.property, 'forward', self.scenarioIdx)) and old(self.doneEffort) == 0 and "
+                                    "self.doneEffort > 0 and EffortOf(self) > 0, TStart(self.property, self.scenarioIdx) is not None and "
+                                    "secs(some(TStart(self.property, self.scenarioIdx))) == secs(PT(self.project, some(self.currentSlotIdx))) + self.slotStartOffset)"),
         ("end-kept", "TEnd(self.property, self.scenarioIdx) == old(TEnd(self.property, self.scenarioIdx)) and "
                      "attr(self.property, 'scheduled', self.scenarioIdx) == old(attr(self.property, 'scheduled', self.scenarioIdx))"),
         # C01: when effort was credited, the last booked resource's slot is full and the task's entry sits last
@@ -383,6 +386,9 @@ contract(
                        "TStart(self.property, self.scenarioIdx) != old(TStart(self.property, self.scenarioIdx)), "
                        "old(self.doneEffort) == 0 and self.doneEffort > 0 and TStart(self.property, self.scenarioIdx) is not None and "
                        "secs(some(TStart(self.property, self.scenarioIdx))) == secs(PT(self.project, some(self.currentSlotIdx))) + self.slotStartOffset)"),
+        ("first-credit-sets-start", "implies(IsEffortTask(self) and some(attr(self.property, 'forward', self.scenarioIdx)) and "
+                                    "old(self.doneEffort) == 0 and self.doneEffort > 0, TStart(self.property, self.scenarioIdx) is not None and "
+                                    "secs(some(TStart(self.property, self.scenarioIdx))) == secs(PT(self.project, some(self.currentSlotIdx))) + self.slotStartOffset)"),
         # C06: a milestone has start == end at the dependency bound
         ("milestone", "implies(IsMilestone(self) and some(attr(self.property, 'forward', self.scenarioIdx)) and "
                       "old(TStart(self.property, self.scenarioIdx)) is None, "
